@@ -167,6 +167,7 @@ type vC33Imm struct {
 	label int      // immLabel / immVarintLabel
 	ls    []int    // immLabels
 	group *FieldGroup
+	b64   bool // print byte constants as base64(...)
 }
 
 type vC33Ins struct {
@@ -224,7 +225,11 @@ func (ins *vC33Ins) text(r *vRand) string {
 			}
 		case immBytess:
 			for _, b := range im.bss {
-				sb.WriteString(" " + vC33HexLit(r, b))
+				if im.b64 {
+					sb.WriteString(" base64(" + base64.StdEncoding.EncodeToString(b) + ")")
+				} else {
+					sb.WriteString(" " + vC33HexLit(r, b))
+				}
 			}
 		case immLabel, immVarintLabel:
 			fmt.Fprintf(&sb, " L%d", im.label)
@@ -628,6 +633,118 @@ func vC33GenTyped(r *vRand, v uint64, st map[string]int) *vC33Prog {
 	return p
 }
 
+// hand-shaped programs: branch distances at the encoding thresholds, loops, switch tables,
+// subroutines, constant blocks in dead code behind an unreferenced label
+func vC33Scenarios(r *vRand, v uint64) []*vC33Prog {
+	var out []*vC33Prog
+	spec := func(n string) *OpSpec {
+		s, ok := OpsByName[v][n]
+		if !ok {
+			return nil
+		}
+		return &s
+	}
+	mk := func(ins []vC33Ins, extraLabs ...int) {
+		p := &vC33Prog{v: v, tt: true, salt: 2, mode: ModeApp, ins: ins}
+		p.labs = append(p.refs(), extraLabs...)
+		out = append(out, p)
+	}
+	one := func(n string, imms ...vC33Imm) vC33Ins { return vC33Ins{spec: spec(n), imms: imms} }
+	lbl := func(s *OpSpec, k int) vC33Imm { return vC33Imm{kind: s.Immediates[0].kind, label: k} }
+	// filler of exactly n >= 3 bytes
+	filler := func(n int) vC33Ins {
+		if spec("pushbytes") != nil {
+			// opcode + varint(len) + len
+			l := n - 2
+			if l > 127 {
+				l = n - 3
+			}
+			return one("pushbytes", vC33Imm{kind: immBytes, bs: r.Bytes(l)})
+		}
+		// bytecblock 1 len bytes
+		l := n - 3
+		if l > 127 {
+			l = n - 4
+		}
+		return one("bytecblock", vC33Imm{kind: immBytess, bss: [][]byte{r.Bytes(l)}})
+	}
+	bname := "b"
+	if spec("b") == nil {
+		bname = "bnz"
+	}
+	b := spec(bname)
+	// forward / backward distances around the 1/2/3-byte varint and the int16 limits
+	dists := []int{3, 60, 63, 64, 65, 128, 4000}
+	if vTier() != "quick" || v >= varintBranchVersion || v == 4 {
+		dists = append(dists, 8190, 8191, 8192, 8193, 8194, 8195, 32764, 32765, 32766, 32767, 32768, 32769, 32770, 32771, 40000)
+	}
+	for _, d := range dists {
+		var fill []vC33Ins
+		for rest := d; rest > 0; {
+			n := rest
+			if n > 4000 {
+				n = 4000
+			}
+			if rest-n > 0 && rest-n < 3 {
+				n -= 3
+			}
+			fill = append(fill, filler(n))
+			rest -= n
+		}
+		fwd := append([]vC33Ins{one(bname, lbl(b, len(fill)+1))}, fill...)
+		mk(fwd)
+		if v >= backBranchEnabledVersion {
+			back := append(append([]vC33Ins{}, fill...), one(bname, lbl(b, 0)))
+			mk(back)
+			// a forward branch over a back branch over the filler: sizes depend on each other
+			both := append([]vC33Ins{one("bz", lbl(spec("bz"), len(fill)+2))}, fill...)
+			both = append(both, one("bnz", lbl(spec("bnz"), 1)))
+			mk(both)
+		}
+	}
+	if sw := spec("switch"); sw != nil {
+		mk([]vC33Ins{one("switch", vC33Imm{kind: immLabels, ls: []int{0, 1, 2, 3}}), one("match", vC33Imm{kind: immLabels, ls: []int{3, 0}}), one("err")})
+		mk([]vC33Ins{one("switch", vC33Imm{kind: immLabels})})
+	}
+	if cs := spec("callsub"); cs != nil {
+		ins := []vC33Ins{one("callsub", lbl(cs, 2)), one("return"), one("retsub")}
+		if spec("proto") != nil {
+			ins = []vC33Ins{one("callsub", lbl(cs, 2)), one("return"),
+				one("proto", vC33Imm{kind: immByte, b: 1}, vC33Imm{kind: immByte, b: 1}),
+				one("frame_dig", vC33Imm{kind: immInt8, b: 0xff}), one("retsub"),
+				one("proto", vC33Imm{kind: immByte, b: 0}, vC33Imm{kind: immByte, b: 0}), one("retsub")}
+		}
+		mk(ins)
+	}
+	// constant blocks behind a dead-code label that nothing references
+	ints := vC33Imm{kind: immInts, us: []uint64{1, 2, 3, 4, 5, 6}}
+	bss := vC33Imm{kind: immBytess, bss: [][]byte{{1}, {2}, {3}, {4}, {5}, {6}}}
+	mk([]vC33Ins{one("err"), one("intcblock", ints), one("intc", vC33Imm{kind: immByte, b: 5})}, 1)
+	mk([]vC33Ins{one("err"), one("bytecblock", bss), one("bytec", vC33Imm{kind: immByte, b: 4})}, 1)
+	mk([]vC33Ins{one("err"), one("intcblock", ints), one("intc", vC33Imm{kind: immByte, b: 5})})
+	mk([]vC33Ins{one("intcblock", ints), one("intc", vC33Imm{kind: immByte, b: 5}), one("intc", vC33Imm{kind: immByte, b: 2}),
+		one("bytecblock", bss), one("bytec", vC33Imm{kind: immByte, b: 0}), one("arg", vC33Imm{kind: immByte, b: 1}), one("arg", vC33Imm{kind: immByte, b: 9})})
+	out[len(out)-1].mode = ModeSig
+	// a constant list whose disassembly is one line of 65534 / 65536 characters (the source,
+	// written with base64 literals, is shorter): "<name>" + sum(" 0x" + 2*len)
+	if v == 1 || v == 8 || v == LogicVersion {
+		for _, name := range []string{"bytecblock", "pushbytess"} {
+			if spec(name) == nil {
+				continue
+			}
+			for _, last := range []int{4078, 4079} {
+				var items [][]byte
+				for i := 0; i < 7; i++ {
+					items = append(items, r.Bytes(4096))
+				}
+				items = append(items, r.Bytes(last))
+				mk([]vC33Ins{one(name, vC33Imm{kind: immBytess, bss: items, b64: true})})
+			}
+		}
+	}
+	return out
+}
+
 func vC33RunA(out *vOut, st map[string]int, r *vRand, p *vC33Prog) {
 	text := p.text(r)
 	ver := uint64(assemblerNoVersion)
@@ -934,6 +1051,12 @@ func TestVerifC33(t *testing.T) {
 			p.labs = p.refs()
 			vC33RunA(out, st, r, p)
 			st["a_single"]++
+		}
+	}
+	for v := uint64(0); v <= LogicVersion; v++ {
+		for _, p := range vC33Scenarios(r, v) {
+			vC33RunA(out, st, r, p)
+			st["a_scenario"]++
 		}
 	}
 	for i := 0; i < nA; i++ {
